@@ -41,7 +41,7 @@ theorem window_eq (o : Opt) (hd : 0 < o.dur) (t : Int) (hc : NoClamp o t) :
 /-- the window start is `off` plus a multiple of `d` -/
 theorem wsOf_eq_mul (o : Opt) (t : Int) : wsOf o t = o.off + o.dur * ((t - o.off) / o.dur) := by
   unfold wsOf
-  have := Int.ediv_add_emod (t - o.off) o.dur
+  have := Int.mul_ediv_add_emod (t - o.off) o.dur
   omega
 
 /-- a time lies in `[start, end)` of `t`'s window iff it has the same window start -/
@@ -139,5 +139,125 @@ theorem reduceStream_runs {α β : Type} (o : Opt) (hd : 0 < o.dur) (emit : Int 
   rw [hf]
   have := reduceGo_runs o hd emit tg l htag hc none (by intro ka h; cases h)
   simpa using this
+
+end Influx.InfluxQLPipe.Lemmas
+
+namespace Influx.InfluxQLPipe.Lemmas
+open Influx.Reducers Influx.Spec.C22 Influx.InfluxQLPipe
+
+/-! ### on a stream ordered by key, runs are the groups of equal key -/
+
+theorem dedupAdj_cons_same (k : Int) (l : List Int) : dedupAdj (k :: k :: l) = dedupAdj (k :: l) := by
+  simp [dedupAdj]
+
+theorem dedupAdj_cons_ne (k k' : Int) (l : List Int) (h : k ≠ k') :
+    dedupAdj (k :: k' :: l) = k :: dedupAdj (k' :: l) := by
+  simp [dedupAdj, h]
+
+theorem mem_dedupAdj (l : List Int) : ∀ x, x ∈ dedupAdj l → x ∈ l := by
+  induction l with
+  | nil => intro x hx; simp [dedupAdj] at hx
+  | cons a l ih =>
+    intro x hx
+    cases l with
+    | nil => simpa [dedupAdj] using hx
+    | cons b l =>
+      by_cases hab : a = b
+      · subst hab
+        rw [dedupAdj_cons_same] at hx
+        exact List.mem_cons_of_mem _ (ih x hx)
+      · rw [dedupAdj_cons_ne _ _ _ hab] at hx
+        rcases List.mem_cons.mp hx with rfl | hx
+        · simp
+        · exact List.mem_cons_of_mem _ (ih x hx)
+
+/-- `R`: strict order in which the keys advance (`<` ascending, `>` descending) -/
+theorem runsGo_sorted {α : Type} (key : α → Int) (R : Int → Int → Prop)
+    (hirr : ∀ x, ¬ R x x) (htr : ∀ x y z, R x y → R y z → R x z) (rest : List α) :
+    ∀ (k : Int) (acc : List α), (∀ a ∈ acc, key a = k) →
+      (∀ r ∈ rest, key r = k ∨ R k (key r)) →
+      List.Pairwise (fun a b => key a = key b ∨ R (key a) (key b)) rest →
+      runsGo key (some (k, acc)) rest =
+        (dedupAdj (k :: rest.map key)).map fun k' => (k', (acc ++ rest).filter fun a => decide (key a = k')) := by
+  induction rest with
+  | nil =>
+    intro k acc hacc _ _
+    have : acc.filter (fun a => decide (key a = k)) = acc := by
+      rw [List.filter_eq_self]; intro a ha; simp [hacc a ha]
+    simp [runsGo, dedupAdj, this]
+  | cons p ps ih =>
+    intro k acc hacc hrest hpw
+    have hpw' := List.pairwise_cons.mp hpw
+    simp only [runsGo]
+    by_cases hk : key p = k
+    · simp only [hk, if_true, List.map_cons]
+      rw [dedupAdj_cons_same]
+      have hacc' : ∀ a ∈ acc ++ [p], key a = k := by
+        intro a ha
+        rcases List.mem_append.mp ha with ha | ha
+        · exact hacc a ha
+        · simp at ha; subst ha; exact hk
+      have hrest' : ∀ r ∈ ps, key r = k ∨ R k (key r) := fun r hr => hrest r (by simp [hr])
+      rw [ih k (acc ++ [p]) hacc' hrest' hpw'.2]
+      simp
+    · have hR : R k (key p) := by
+        rcases hrest p (by simp) with h | h
+        · exact absurd h hk
+        · exact h
+      simp only [hk, if_false, List.map_cons]
+      rw [dedupAdj_cons_ne _ _ _ (fun h => hk h.symm)]
+      have hrest' : ∀ r ∈ ps, key r = key p ∨ R (key p) (key r) := fun r hr => (hpw'.1 r hr).imp Eq.symm id
+      rw [ih (key p) [p] (by simp) hrest' hpw'.2]
+      simp only [List.map_cons, List.cons.injEq, Prod.mk.injEq, true_and]
+      -- everything from p on has a key after k
+      have hafter : ∀ r ∈ p :: ps, R k (key r) := by
+        intro r hr
+        rcases List.mem_cons.mp hr with rfl | hr
+        · exact hR
+        · rcases hpw'.1 r hr with h | h
+          · rw [← h]; exact hR
+          · exact htr _ _ _ hR h
+      refine ⟨?_, ?_⟩
+      · -- the run of k is exactly acc
+        rw [List.filter_append]
+        have h1 : acc.filter (fun a => decide (key a = k)) = acc := by
+          rw [List.filter_eq_self]; intro a ha; simp [hacc a ha]
+        have h2 : (p :: ps).filter (fun a => decide (key a = k)) = [] := by
+          rw [List.filter_eq_nil_iff]
+          intro r hr
+          have := hafter r hr
+          simp only [decide_eq_true_eq]
+          intro h; rw [h] at this; exact hirr _ this
+        rw [h1, h2, List.append_nil]
+      · apply List.map_congr_left
+        intro k' hk'
+        have hk'mem : k' ∈ (p :: ps).map key := by
+          have := mem_dedupAdj _ k' hk'
+          simpa using this
+        obtain ⟨r, hr, hrk⟩ := List.mem_map.mp hk'mem
+        have hRk' : R k k' := by rw [← hrk]; exact hafter r hr
+        have h1 : acc.filter (fun a => decide (key a = k')) = [] := by
+          rw [List.filter_eq_nil_iff]
+          intro a ha
+          simp only [decide_eq_true_eq]
+          intro h
+          rw [hacc a ha] at h
+          rw [h] at hRk'; exact hirr _ hRk'
+        simp only [List.singleton_append, Prod.mk.injEq, true_and]
+        rw [List.filter_append, h1, List.nil_append]
+
+/-- **runs = groups**: on a stream whose keys advance monotonically the maximal runs are,
+    for each distinct key in order, all elements with that key -/
+theorem runs_sorted {α : Type} (key : α → Int) (R : Int → Int → Prop)
+    (hirr : ∀ x, ¬ R x x) (htr : ∀ x y z, R x y → R y z → R x z) (l : List α)
+    (hpw : List.Pairwise (fun a b => key a = key b ∨ R (key a) (key b)) l) :
+    runs key l = (dedupAdj (l.map key)).map fun k => (k, l.filter fun a => decide (key a = k)) := by
+  cases l with
+  | nil => simp [runs, runsGo, dedupAdj]
+  | cons p ps =>
+    have hpw' := List.pairwise_cons.mp hpw
+    simp only [runs, runsGo]
+    rw [runsGo_sorted key R hirr htr ps (key p) [p] (by simp) (fun r hr => (hpw'.1 r hr).imp Eq.symm id) hpw'.2]
+    simp
 
 end Influx.InfluxQLPipe.Lemmas
